@@ -322,6 +322,8 @@ def corpus(cellname, gdim):
     F["poisson+reaction+boundary"] = c * inner(grad(u), grad(v)) * dx + f * u * v * dx(1) + g * u * v * ds
     F["rhs"] = f * v * dx + g * v * ds(1) + c * v * dx(2)
     F["subdomains+metadata"] = f * v * dx(1) + g * v * dx((1, 2)) + f * g * v * dx + g * v * dx(2, metadata={"quadrature_degree": 2}) + f * v * ds(3) + g * v * ds
+    # one and the same integrand contributed several times to one subdomain (everywhere + numbered, overlapping tuples, a form added to itself)
+    F["same integrand on overlapping subdomains"] = f * g * v * dx + f * g * v * dx(1) + f * g * v * dx((1, 2)) + f * g * v * dx((2, 3)) + (g * v * ds(1) + g * v * ds(1))
     F["coordinates+math"] = x[0] * g * v * dx + sin(f) * v * dx + exp(g) * conditional(lt(f, 1), f, f * f) * v * ds
     F["variable-diff"] = (lambda w_: diff(w_ ** 3 + w_ * g, w_) * v * dx)(variable(f))
     F["index-notation"] = as_tensor(grad(uu)[i, k] * A[k, j], (i, j))[l, l] * vv[0] * dx + ww[i] * grad(vv)[i, j] * uu[j] * dx
